@@ -408,7 +408,9 @@ func (ev *c01env) knownKeyLoop(fn *ssa.Function, lp *loopInfo) {
 		// partial valuation of the four predicates
 		part := map[string]*bool{}
 		unknownAtoms := []string{}
-		for k, v := range o.Assign {
+		for _, k := range o.AtomKeys() {
+			v := o.Assign[k]
+			_ = v
 			kind := ev.atomKind(o.AtomSyms[k])
 			if kind == "" {
 				unknownAtoms = append(unknownAtoms, k)
@@ -596,7 +598,9 @@ func (ev *c01env) newKeyLoop(fn *ssa.Function, lp *loopInfo) {
 	earlyExit := false
 	for _, o := range outs {
 		part := map[string]*bool{}
-		for k, v := range o.Assign {
+		for _, k := range o.AtomKeys() {
+			v := o.Assign[k]
+			_ = v
 			kind := ev.atomKind(o.AtomSyms[k])
 			if kind == "" {
 				// a condition that is not about this key: harmless if the walk goes on to the next entry either way
@@ -727,7 +731,9 @@ func (ev *c01env) trigger(fn, diff *ssa.Function) {
 	}
 	lenChecked := false
 	for _, o := range outs {
-		for k, v := range o.Assign {
+		for _, k := range o.AtomKeys() {
+			v := o.Assign[k]
+			_ = v
 			if ev.atomKind(o.AtomSyms[k]) == "lencmp" {
 				s := o.AtomSyms[k]
 				if !(s.MentionsField(ev.fileConfigF) && s.MentionsField(ev.resConfigF)) {
@@ -771,7 +777,9 @@ func (ev *c01env) trigger(fn, diff *ssa.Function) {
 		}
 		for _, o := range outs {
 			part := map[string]*bool{}
-			for k, v := range o.Assign {
+			for _, k := range o.AtomKeys() {
+				v := o.Assign[k]
+				_ = v
 				kind := ev.atomKind(o.AtomSyms[k])
 				if kind == "" {
 					c.Undecided(R, key+":per-key:atoms", site, "condition outside the table's predicates: "+k)
@@ -851,7 +859,9 @@ func (ev *c01env) measurements() {
 			}
 			for _, o := range outs {
 				var origEmpty *bool
-				for k, v := range o.Assign {
+				for _, k := range o.AtomKeys() {
+					v := o.Assign[k]
+					_ = v
 					s := o.AtomSyms[k]
 					if s.Op == "binop" && (s.Args[0].IsFieldLoad(ouF) || s.Args[1].IsFieldLoad(ouF) || symIsField(s.Args[0], ouF) || symIsField(s.Args[1], ouF)) {
 						vv := v // (OrigUnit == "") truth
